@@ -8,6 +8,7 @@ import Rtsp.Proofs.Sess.Wf
 import Rtsp.Proofs.Sess.A2
 import Rtsp.Proofs.Sess.Reasons
 import Rtsp.Proofs.Sess.Conv
+import Rtsp.Proofs.Sess.Bystander
 /-
 C02 — server sessions follow the RTSP state machine; one response per request.
 
@@ -22,8 +23,9 @@ open Rtsp.Sess Rtsp.Rfc2326 Rtsp.Facts
 /-! ## the facts the model and the theorems rest on (regenerated from /repo on every run) -/
 
 /-- The per-method allowed-state sets, the Session-header rule, the TEARDOWN rule, the
-"no connection left" rule, the CSeq echo, the two session-lookup rules and the "error closes the
-connection" shape of both read loops are still written in the code the way the model mirrors them;
+"no connection left" rule, the CSeq echo, the two session-lookup rules, the "error closes the
+connection" shape of both read loops, the read-loop switch and the interleaved-owner bookkeeping, and
+the error-free 461 / 501 answers are still written in the code the way the model mirrors them;
 the constants of the timer formulas have the values the arithmetic theorems use. -/
 theorem facts_shape :
     Sess.allowedAnnounce = true ∧ Sess.allowedSetup = true ∧ Sess.allowedPlay = true ∧
@@ -31,6 +33,10 @@ theorem facts_shape :
     Sess.sessionHeaderRuleExpr = true ∧ Sess.teardownEndsExpr = true ∧ Sess.removeConnRuleExpr = true ∧
     Sess.cseqEchoExpr = true ∧ Sess.otherSessionExpr = true ∧ Sess.otherIPExpr = true ∧
     Sess.errorClosesConnCount = 2 ∧
+    Sess.unexpectedFrameStd = true ∧ Sess.unexpectedResponseCount = 2 ∧ Sess.switchReadFuncExpr = true ∧
+    Sess.tcpOwnerSetCount = 2 ∧ Sess.tcpOwnerClearCount = 2 ∧ Sess.tcpOwnerCheckExpr = true ∧
+    Sess.teardownSwitchExpr = true ∧ Sess.unsupportedTransportNoErrorCount = 2 ∧
+    Sess.notImplementedNoErrorCount = 1 ∧
     Sess.udpCheckRecordExpr = true ∧ Sess.udpCheckPlayExpr = true ∧ Sess.udpCheckRearmExpr = true ∧
     Sess.lastPacketSecondsCount = 4 ∧
     Sess.advertisedSub = 5 ∧ Sess.advertisedMin = 1 ∧
@@ -215,6 +221,15 @@ theorem conversation (cfg : Config) (evs : List Event) (c : Nat) (cn : Conn) (rs
     (hopen : findConn (run cfg {} evs).1 c = some cn) :
     Conversation rs (run cfg (run cfg {} evs).1 (rs.map (.req c))).2 :=
   Sess.conversation cfg c rs _ cn (invariant_all_histories cfg evs).1 (invariant_all_histories cfg evs).2 hopen
+
+/-- **bystanders_untouched**: in every reachable state, a request leaves every session alone that is
+neither the one its connection is associated with nor the one named by its Session header: that
+session's record — state, transport, medias, connections — is still in the server, unchanged. -/
+theorem bystanders_untouched (cfg : Config) (evs : List Event) (cn : Conn) (r : Request) (x : Session)
+    (hcn : cn ∈ (run cfg {} evs).1.conns) (hx : x ∈ (run cfg {} evs).1.sessions)
+    (h1 : cn.sess ≠ some x.id) (h2 : r.sid ≠ .id x.id) :
+    x ∈ (handleRequest cfg (run cfg {} evs).1 cn r).1.sessions :=
+  handleRequest_bystander cfg (invariant_all_histories cfg evs).1 hcn r hx h1 h2
 
 /-- the same, spelled out for one session -/
 theorem alive_has_conn_or_udp_streaming (cfg : Config) (evs : List Event) (ss : Session)
